@@ -41,6 +41,9 @@ import (
 type World struct {
 	Ltoc   []int   `json:"ltoc"`   // per layer digest id: TOC id (== blob id) or -1 (not eStargz)
 	Images [][]int `json:"images"` // per ref id: layer digest ids of the manifest
+	// per ref id, per layer index: the toc.digest annotation of the layer descriptor in the manifest:
+	// -1 (or missing) = none, 0..4 / 50.. / 100.. = the digest of that toc id (correct when it is the layer's own), 900 = not a digest
+	Ann [][]int `json:"ann,omitempty"`
 }
 
 type Op struct {
@@ -52,6 +55,7 @@ type Op struct {
 	Mf  bool   `json:"mf,omitempty"`  // manifest fetch fails during this op
 	Fl  []int  `json:"fl,omitempty"`  // layer digest ids whose blob fetch fails during this op
 	Grp int    `json:"grp,omitempty"` // lookups with the same non-zero grp (consecutive) run concurrently
+	Cx  string `json:"cx,omitempty"`  // lookup: the client's context is cancelled "before" the call, "mid" (while a blob request is in flight) or "after" it
 }
 
 type Case struct {
@@ -145,15 +149,30 @@ func refName(r int) string { return fmt.Sprintf("%s/img%d:latest", hostName, r) 
 
 // registry serves manifests/configs over a fake http.RoundTripper and blobs through a remote.Handler.
 type registry struct {
-	mu       sync.Mutex
-	w        World
-	manifest map[string][]byte // "img<r>" -> manifest bytes
-	mdigest  map[string]digest.Digest
-	content  map[digest.Digest][]byte // manifests + configs by digest
-	mfault   bool
-	bfault   map[digest.Digest]bool
-	injected map[digest.Digest]bool // blob faults actually delivered during the current op
-	fetches  int                    // manifest fetches served
+	mu                    sync.Mutex
+	w                     World
+	manifest              map[string][]byte // "img<r>" -> manifest bytes
+	mdigest               map[string]digest.Digest
+	content               map[digest.Digest][]byte // manifests + configs by digest
+	mfault                bool
+	bfault                map[digest.Digest]bool
+	injected              map[digest.Digest]bool // blob faults actually delivered during the current op
+	fetches               int                    // manifest fetches served
+	gateReached, gateOpen chan struct{}
+}
+
+// armGate makes the next blob request wait; returns (reached, open).
+func (g *registry) armGate() (<-chan struct{}, func()) {
+	g.mu.Lock()
+	defer g.mu.Unlock()
+	r, o := make(chan struct{}), make(chan struct{})
+	g.gateReached, g.gateOpen = r, o
+	return r, func() {
+		g.mu.Lock()
+		g.gateReached, g.gateOpen = nil, nil
+		g.mu.Unlock()
+		close(o)
+	}
 }
 
 func diffID(r, i int) digest.Digest { return digest.FromString(fmt.Sprintf("diffid-%d-%d", r, i)) }
@@ -169,7 +188,7 @@ func newRegistry(w World) *registry {
 		var descs []ocispec.Descriptor
 		for i, l := range ls {
 			img.RootFS.DiffIDs = append(img.RootFS.DiffIDs, diffID(r, i))
-			descs = append(descs, layerDesc(l))
+			descs = append(descs, annotate(layerDesc(l), annOf(w, r, i)))
 		}
 		cb, _ := json.Marshal(img)
 		cd := digest.FromBytes(cb)
@@ -189,11 +208,33 @@ func newRegistry(w World) *registry {
 	return g
 }
 
+func annOf(w World, r, i int) int {
+	if r < 0 || r >= len(w.Ann) || i >= len(w.Ann[r]) {
+		return -1
+	}
+	return w.Ann[r][i]
+}
+
+// annotate adds the toc.digest annotation an image builder would have put on the layer descriptor (possibly stale or wrong).
+func annotate(d ocispec.Descriptor, a int) ocispec.Descriptor {
+	switch {
+	case a < 0:
+	case a == 900:
+		d.Annotations = map[string]string{estargz.TOCJSONDigestAnnotation: "not-a-digest"}
+	default:
+		d.Annotations = map[string]string{estargz.TOCJSONDigestAnnotation: tocDigest(a).String()}
+	}
+	return d
+}
+
 func layerDesc(l int) ocispec.Descriptor {
 	return ocispec.Descriptor{MediaType: ocispec.MediaTypeImageLayerGzip, Digest: blobs[l].dgst, Size: int64(len(blobs[l].data))}
 }
 
 func (g *registry) RoundTrip(req *http.Request) (*http.Response, error) {
+	if err := req.Context().Err(); err != nil {
+		return nil, err // a real transport does not serve a cancelled request
+	}
 	g.mu.Lock()
 	defer g.mu.Unlock()
 	resp := func(code int, ct string, body []byte, dg digest.Digest) (*http.Response, error) {
@@ -257,6 +298,19 @@ func noHosts(reference.Spec) ([]docker.RegistryHost, error) {
 
 // Handle implements remote.Handler: serves layer blobs from memory, or fails when the script says so.
 func (g *registry) Handle(ctx context.Context, desc ocispec.Descriptor) (remote.Fetcher, int64, error) {
+	// gate: the first blob request after armGate() waits here until the harness lets it continue (the client
+	// abandons its lookup in the meantime); like a real registry client, a cancelled request fails
+	g.mu.Lock()
+	reached, open := g.gateReached, g.gateOpen
+	g.gateReached, g.gateOpen = nil, nil
+	g.mu.Unlock()
+	if reached != nil {
+		close(reached)
+		<-open
+	}
+	if err := ctx.Err(); err != nil {
+		return nil, 0, err
+	}
 	g.mu.Lock()
 	defer g.mu.Unlock()
 	if g.bfault[desc.Digest] {
@@ -369,6 +423,16 @@ func (m *machine) spec(r int) reference.Spec {
 		return m.specs[len(m.specs)-1]
 	}
 	return m.specs[r]
+}
+
+// descOf is the descriptor of layer l as the manifest of ref r has it (with its annotations).
+func (m *machine) descOf(r, l int) ocispec.Descriptor {
+	for i, x := range m.image(r) {
+		if x == l {
+			return annotate(layerDesc(l), annOf(m.w, r, i))
+		}
+	}
+	return layerDesc(l)
 }
 
 func (m *machine) image(r int) []int {
@@ -539,6 +603,41 @@ func (m *machine) quiesce() {
 func (m *machine) lookup(r, t int) bool {
 	ctx, cancel := context.WithTimeout(context.Background(), 20*time.Second)
 	defer cancel()
+	return m.lookupCtx(ctx, r, t)
+}
+
+// lookupCx is a lookup whose client gives up at the given stage. Resolution must not depend on the client's patience:
+// whatever was started goes on, and later lookups see no trace of the cancellation.
+func (m *machine) lookupCx(o Op) bool {
+	ctx, cancel := context.WithCancel(context.Background())
+	defer cancel()
+	switch o.Cx {
+	case "before":
+		cancel()
+		return m.lookupCtx(ctx, o.R, o.T)
+	case "mid":
+		reached, open := m.g.armGate()
+		done := make(chan bool, 1)
+		go func() { done <- m.lookupCtx(ctx, o.R, o.T) }()
+		var res bool
+		select {
+		case <-reached:
+			m.stats["result.cancel.midfetch"]++
+			cancel()
+			open()
+			res = <-done
+		case res = <-done: // no blob request was made (cache hit, manifest failure, everything memoised)
+			open()
+		}
+		return res
+	default:
+		res := m.lookupCtx(ctx, o.R, o.T)
+		cancel()
+		return res
+	}
+}
+
+func (m *machine) lookupCtx(ctx context.Context, r, t int) bool {
 	l, err := m.lm.VerifGetLayer(ctx, m.spec(r), tocDigest(t))
 	if err != nil {
 		return false
@@ -674,7 +773,12 @@ func (m *machine) run(ops []Op) []Obs {
 			grp := ops[i:j]
 			m.g.setFaults(o.Mf, o.Fl)
 			res := make([]bool, len(grp))
-			if len(grp) == 1 {
+			if len(grp) == 1 && o.Cx != "" {
+				res[0] = m.lookupCx(o)
+				if o.Cx == "before" {
+					o.Mf = true // a request that is already cancelled cannot fetch the manifest: same as a manifest fault
+				}
+			} else if len(grp) == 1 {
 				res[0] = m.lookup(o.R, o.T)
 			} else {
 				var wg sync.WaitGroup
@@ -819,7 +923,7 @@ func (m *machine) run(ops []Op) []Obs {
 			}
 			if valid {
 				m.g.setFaults(false, o.Fl)
-				m.lm.VerifResolveLayer(context.Background(), m.spec(o.R), layerDesc(o.L))
+				m.lm.VerifResolveLayer(context.Background(), m.spec(o.R), m.descOf(o.R, o.L))
 				m.noteInjected(o.R)
 				m.g.setFaults(false, nil)
 			}
@@ -857,7 +961,7 @@ func (m *machine) run(ops []Op) []Obs {
 			done := make(chan struct{})
 			var rerr error
 			go func() {
-				rerr = m.lm.VerifResolveLayer(context.Background(), m.spec(o.R), layerDesc(o.L))
+				rerr = m.lm.VerifResolveLayer(context.Background(), m.spec(o.R), m.descOf(o.R, o.L))
 				close(done)
 			}()
 			atGate := false
@@ -976,7 +1080,7 @@ func coqWorld(w World) string {
 func coqOp(o Op) string {
 	switch o.Op {
 	case "lookup":
-		return fmt.Sprintf("Lookup %d %d %s %s", o.R, o.T, hx.CoqBool(o.Mf), hx.CoqNatList(o.Fl))
+		return fmt.Sprintf("Lookup %d %d %s %s", o.R, o.T, hx.CoqBool(o.Mf || (o.Cx == "before" && o.Grp == 0)), hx.CoqNatList(o.Fl))
 	case "info":
 		return fmt.Sprintf("Info %d %d %s", o.R, o.T, hx.CoqBool(o.Mf))
 	case "use":
@@ -1091,6 +1195,26 @@ func genWorld(r *hx.Rng) World {
 			ls = append(ls, l)
 		}
 		w.Images = append(w.Images, ls)
+		var an []int
+		for _, l := range ls {
+			a := -1
+			switch r.Pick(40, 30, 12, 6, 6, 6) {
+			case 1:
+				if w.Ltoc[l] >= 0 {
+					a = w.Ltoc[l] // correct
+				}
+			case 2:
+				a = r.Intn(nEsgz) // another layer's TOC digest (or, by chance, the right one)
+			case 3:
+				a = tocUnk0 + r.Intn(2) // stale: a digest no layer has
+			case 4:
+				a = tocAsLD + l // the layer digest
+			case 5:
+				a = 900 // malformed
+			}
+			an = append(an, a)
+		}
+		w.Ann = append(w.Ann, an)
 	}
 	return w
 }
@@ -1162,7 +1286,14 @@ func genCase(r *hx.Rng, tier string) Case {
 					}
 				}
 			}
-			c.Ops = append(c.Ops, Op{Op: "lookup", K: k, R: ref, T: t, Mf: r.Chance(1, 8), Fl: faults(ref)})
+			lo := Op{Op: "lookup", K: k, R: ref, T: t, Mf: r.Chance(1, 8), Fl: faults(ref)}
+			if r.Chance(1, 5) {
+				lo.Cx = []string{"before", "mid", "mid", "after"}[r.Intn(4)]
+			}
+			c.Ops = append(c.Ops, lo)
+			if lo.Cx != "" && r.Chance(2, 3) { // a fresh client asks again
+				c.Ops = append(c.Ops, Op{Op: "lookup", K: "diff", R: ref, T: t})
+			}
 		case 1:
 			c.Ops = append(c.Ops, Op{Op: "info", R: ref, T: pickToc(ref), Mf: r.Chance(1, 8)})
 		case 2:
@@ -1286,6 +1417,11 @@ func corpus() []Case {
 		{World: World{Ltoc: []int{0, 1, 2, 3, 4, -1, -1}, Images: [][]int{{3, 0, 1}, {3, 4}}}, Ops: []Op{{Op: "use", R: 1, T: 1}, {Op: "resolve", R: 0, L: 1, Fl: []int{1}}, {Op: "racerel", R: 1, T: 1, L: 3, Fl: []int{3}}, {Op: "use", R: 2, T: 2}, {Op: "lookup", K: "diff", R: 1, T: 3}, {Op: "use", R: 1, T: 3}, {Op: "release", R: 1, T: 3}, {Op: "release", R: 2, T: 2}, {Op: "use", R: 0}}},
 		// thorough run (seed 1) of the phase-2 harness, case 818: a failing resolution racing with a release (error recorded after it)
 		{World: World{Ltoc: []int{0, 1, 2, 3, 4, -1, -1}, Images: [][]int{{2}}}, Ops: []Op{{Op: "use", R: 0, T: 2}, {Op: "release", R: 0, T: 2}, {Op: "use", R: 0, T: 2}, {Op: "info", R: 0}, {Op: "racerel", R: 0, T: 2, L: 2, Fl: []int{2}}, {Op: "use", R: 0}, {Op: "lookup", K: "diff", R: 0, T: 2}, {Op: "use", R: 0, T: 2}, {Op: "lookup", K: "diff", R: 0}, {Op: "lookup", K: "diff", R: 0, T: 2, Grp: 1}, {Op: "lookup", K: "diff", R: 0, T: 2, Grp: 1}, {Op: "lookup", K: "diff", R: 0, T: 2, Grp: 1}, {Op: "lookup", K: "diff", R: 0, T: 2, Grp: 1}, {Op: "use", R: 0, T: 2}, {Op: "lookup", K: "diff", R: 0, T: 2}, {Op: "lookup", K: "diff", R: 0, T: 2, Grp: 2}, {Op: "lookup", K: "diff", R: 0, T: 2, Grp: 2}, {Op: "lookup", K: "diff", R: 0, T: 2, Grp: 2}, {Op: "lookup", K: "blob", R: 0, T: 2, Fl: []int{2}}}},
+		// manifests whose layer descriptors carry toc.digest annotations: correct, another layer's, stale, malformed, none
+		{World: World{Ltoc: []int{0, 1, 2, 3, 4, -1, -1}, Images: [][]int{{0, 1, 2, 3, 5}, {1, 2}}, Ann: [][]int{{1, 50, 900, 3, 0}, {101, -1}}},
+			Ops: []Op{{Op: "lookup", K: "diff", R: 0, T: 0}, {Op: "lookup", K: "diff", R: 0, T: 1}, {Op: "lookup", K: "blob", R: 0, T: 2}, {Op: "lookup", K: "diff", R: 0, T: 3}, {Op: "use", R: 0, T: 1}, {Op: "release", R: 0, T: 1}, {Op: "lookup", K: "diff", R: 0, T: 1}, {Op: "lookup", K: "diff", R: 0, T: 50}, {Op: "lookup", K: "diff", R: 1, T: 1}, {Op: "info", R: 1, T: 1}, {Op: "lookup", K: "diff", R: 1, T: 2}}},
+		// the client gives up before / while a blob request is in flight / after; a fresh client asks again; no release in between
+		{World: std, Ops: []Op{{Op: "lookup", K: "diff", R: 0, T: 0, Cx: "mid"}, {Op: "lookup", K: "diff", R: 0, T: 0}, {Op: "lookup", K: "diff", R: 0, T: 1}, {Op: "lookup", K: "diff", R: 1, T: 1, Cx: "before"}, {Op: "lookup", K: "diff", R: 1, T: 1, Cx: "mid"}, {Op: "lookup", K: "blob", R: 1, T: 2}, {Op: "lookup", K: "diff", R: 1, T: 1, Cx: "after"}, {Op: "use", R: 1, T: 1}, {Op: "release", R: 1, T: 1}, {Op: "lookup", K: "diff", R: 1, T: 2, Cx: "mid"}, {Op: "lookup", K: "diff", R: 1, T: 2}}},
 		// F28: the last use of a layer is released while a resolveLayer of that layer is between cacheLayer and its bookkeeping
 		{World: std, Ops: []Op{{Op: "use", R: 1, T: 1}, {Op: "racerel", R: 1, L: 1, T: 1}, {Op: "lookup", K: "diff", R: 1, T: 1}, {Op: "lookup", K: "diff", R: 1, T: 1}, {Op: "use", R: 1, T: 2}, {Op: "racerel", R: 1, L: 1, T: 2}, {Op: "lookup", K: "blob", R: 1, T: 1}}},
 		// sub-steps interleaved with a release
